@@ -131,6 +131,25 @@ pub fn nal_bytes(hevc: bool, g: &NalGene, tag: u64) -> Vec<u8> {
         return nal;
     }
     let body = filler(g.len as usize, tag, g.fill % 4);
+    if !hevc && g.typ & 0x1f == 7 && (160..192).contains(&g.fill) {
+        // an H.264 SPS that opens like a real one: profile_idc, constraint flags, level_idc and, for the High profiles, valid
+        // codes for seq_parameter_set_id, chroma_format_idc [separate_colour_plane_flag], bit_depth_luma/chroma_minus8
+        const OPEN: [&[u8]; 12] = [
+            &[0x42, 0xe0, 0x1f],             // constrained baseline
+            &[0x4d, 0x40, 0x1f],             // main
+            &[0x64, 0x00, 0x28, 0xac],       // high, 4:2:0, 8 bit
+            &[0x6e, 0x00, 0x28, 0xa6, 0xc0], // high 10, 4:2:0, 10 bit
+            &[0x7a, 0x00, 0x1f, 0xb6, 0xc0], // high 4:2:2, 10 bit
+            &[0x7a, 0x00, 0x1f, 0xb8],       // high 4:2:2, 8 bit
+            &[0xf4, 0x00, 0x1f, 0x91, 0x80], // high 4:4:4 predictive, 8 bit
+            &[0xf4, 0x00, 0x1f, 0x90, 0xd8], // high 4:4:4 predictive, 10 bit
+            &[0x90, 0x00, 0x1f, 0x91, 0x80], // profile 144 (the older High 4:4:4), 4:4:4, 8 bit
+            &[0x64, 0x00, 0x28, 0xf0],       // high, monochrome
+            &[0x64, 0x00, 0x33, 0x93, 0x80], // high signalling 4:4:4 with separate colour planes
+            &[0x2c, 0x00, 0x1f, 0x90, 0xd8], // CAVLC 4:4:4 intra, 10 bit
+        ];
+        nal.extend_from_slice(OPEN[(g.fill - 160) as usize % OPEN.len()]);
+    }
     // EPB over header+body so that a zero header byte followed by zeros is handled as well
     nal.extend_from_slice(&body);
     if g.fill >= 192 && g.fill < 254 {
